@@ -64,6 +64,7 @@ type FuncContract struct {
 	Sites    []SiteSpec
 	Ghosts   []GhostVar
 	Assumes  []Clause
+	Tokens   map[string]int // monitor counter -> contributions owned by the calling thread at entry
 	Line     int
 	File     string
 	// resolved
@@ -100,6 +101,7 @@ type SpecFile struct {
 	Lemmas  []*Lemma
 	Assumes []string // raw text of every assume/trusted directive, for the evidence scan
 	Audits  []*Audit
+	Monitors []*Monitor
 }
 
 var directiveKW = map[string]bool{
@@ -107,6 +109,7 @@ var directiveKW = map[string]bool{
 	"nopanic": true, "allocbound": true, "unfold": true, "loop": true, "site": true, "ghost": true, "lemma": true, "assume": true,
 	"prop": true, "trusted": true, "pure": true, "end": true, "abstract": true,
 	"audit": true, "transitions": true, "init-store": true,
+	"monitor": true, "cond": true, "protects": true, "invariant": true, "holds": true, "init": true, "counter": true, "token": true,
 }
 
 // ParseSpecFile extracts directives from the comments of a parsed Go file.
@@ -149,6 +152,7 @@ func ParseSpecFile(fset *token.FileSet, f *ast.File) (*SpecFile, error) {
 	var cur *FuncContract
 	var curLemma *Lemma
 	var curAudit *Audit
+	var curMon *Monitor
 	for _, d := range dirs {
 		kw, rest := d.text, ""
 		if i := strings.IndexAny(d.text, " \t"); i >= 0 {
@@ -174,7 +178,7 @@ func ParseSpecFile(fset *token.FileSet, f *ast.File) (*SpecFile, error) {
 				return nil, fmt.Errorf("%s:%d: %v", sf.Path, d.line, err)
 			}
 			sf.Specs = append(sf.Specs, s)
-			cur, curLemma, curAudit = nil, nil, nil
+			cur, curLemma, curAudit, curMon = nil, nil, nil, nil
 		case "func", "extern":
 			// extern func (r *pkg.T) M(...): contract for a method of a dependency (always trusted)
 			rest = strings.TrimPrefix(rest, "func ")
@@ -212,7 +216,7 @@ func ParseSpecFile(fset *token.FileSet, f *ast.File) (*SpecFile, error) {
 				}
 			}
 			sf.Funcs = append(sf.Funcs, cur)
-			curLemma, curAudit = nil, nil
+			curLemma, curAudit, curMon = nil, nil, nil
 		case "lemma":
 			i := strings.Index(rest, ":")
 			if i < 0 {
@@ -224,9 +228,9 @@ func ParseSpecFile(fset *token.FileSet, f *ast.File) (*SpecFile, error) {
 			}
 			curLemma = &Lemma{Name: strings.TrimSpace(rest[:i]), C: c}
 			sf.Lemmas = append(sf.Lemmas, curLemma)
-			cur, curAudit = nil, nil
+			cur, curAudit, curMon = nil, nil, nil
 		case "end":
-			cur, curLemma, curAudit = nil, nil, nil
+			cur, curLemma, curAudit, curMon = nil, nil, nil, nil
 		case "audit":
 			// audit atomic <Type>.<field>
 			f := strings.Fields(rest)
@@ -236,8 +240,49 @@ func ParseSpecFile(fset *token.FileSet, f *ast.File) (*SpecFile, error) {
 			tf := strings.SplitN(f[1], ".", 2)
 			curAudit = &Audit{Kind: "atomic", TypeName: tf[0], Field: tf[1], Line: d.line, File: sf.Path, Text: rest}
 			sf.Audits = append(sf.Audits, curAudit)
-			cur, curLemma = nil, nil
+			cur, curLemma, curMon = nil, nil, nil
+		case "monitor":
+			// monitor (r *T) mu
+			m := regexp.MustCompile(`^\(\s*(\w+)\s+\*?(\w+)\s*\)\s+(\w+)$`).FindStringSubmatch(rest)
+			if m == nil {
+				return nil, fmt.Errorf("%s:%d: bad monitor directive %q", sf.Path, d.line, rest)
+			}
+			curMon = &Monitor{Recv: m[1], TypeName: m[2], MuField: m[3], Line: d.line, File: sf.Path}
+			sf.Monitors = append(sf.Monitors, curMon)
+			cur, curLemma, curAudit = nil, nil, nil
 		default:
+			if curMon != nil {
+				switch kw {
+				case "prop":
+					curMon.Props = strings.Fields(rest)
+				case "cond":
+					curMon.CondFields = append(curMon.CondFields, splitTop(rest)...)
+				case "protects":
+					for _, part := range splitTop(rest) {
+						e, err := ParseExpr(part)
+						if err != nil {
+							return nil, fmt.Errorf("%s:%d: %v", sf.Path, d.line, err)
+						}
+						curMon.Protects = append(curMon.Protects, e)
+						curMon.ProtText = append(curMon.ProtText, part)
+					}
+				case "invariant":
+					c, err := mkClause(rest)
+					if err != nil {
+						return nil, err
+					}
+					curMon.Invariants = append(curMon.Invariants, c)
+				case "counter":
+					curMon.Counters = append(curMon.Counters, splitTop(rest)...)
+				case "holds":
+					curMon.Holds = append(curMon.Holds, splitTop(rest)...)
+				case "init":
+					curMon.Inits = append(curMon.Inits, splitTop(rest)...)
+				default:
+					return nil, fmt.Errorf("%s:%d: directive %q not allowed in monitor", sf.Path, d.line, kw)
+				}
+				continue
+			}
 			if curAudit != nil {
 				switch kw {
 				case "prop":
@@ -330,6 +375,19 @@ func ParseSpecFile(fset *token.FileSet, f *ast.File) (*SpecFile, error) {
 				}
 			case "pure":
 				cur.Pure = true
+			case "token":
+				// token <counter> <n>: the calling thread owns n contributions to the monitor counter at entry
+				// (a precondition on the caller's history; callers are not verified, so it is listed as an assumption)
+				f := strings.Fields(rest)
+				n, err := strconv.Atoi(f[len(f)-1])
+				if len(f) != 2 || err != nil || n < 0 {
+					return nil, fmt.Errorf("%s:%d: bad token directive %q", sf.Path, d.line, rest)
+				}
+				if cur.Tokens == nil {
+					cur.Tokens = map[string]int{}
+				}
+				cur.Tokens[f[0]] = n
+				sf.Assumes = append(sf.Assumes, fmt.Sprintf("%s: the calling thread owns %d %s contribution(s) at entry (caller protocol)", cur.Key, n, f[0]))
 			case "loop":
 				f := strings.Fields(rest)
 				if len(f) < 3 {
@@ -371,10 +429,14 @@ func ParseSpecFile(fset *token.FileSet, f *ast.File) (*SpecFile, error) {
 					return nil, fmt.Errorf("%s:%d: unknown loop directive %q", sf.Path, d.line, f[1])
 				}
 			case "site":
-				// site <selector> assert|assume P
-				m := regexp.MustCompile(`^(.*?)\s+(assert|assume)\s+(.*)$`).FindStringSubmatch(rest)
+				// site <selector> assert|assume P   /   site <selector> ghost inc c; dec d
+				m := regexp.MustCompile(`^(.*?)\s+(assert|assume|ghost)\s+(.*)$`).FindStringSubmatch(rest)
 				if m == nil {
 					return nil, fmt.Errorf("%s:%d: bad site directive", sf.Path, d.line)
+				}
+				if m[2] == "ghost" {
+					cur.Sites = append(cur.Sites, SiteSpec{Selector: strings.TrimSpace(m[1]), Kind: "ghost", C: Clause{Text: m[3], Line: d.line}})
+					continue
 				}
 				c, err := mkClause(m[3])
 				if err != nil {
